@@ -897,7 +897,19 @@ def gen_mustfail(rng):
         body = [D(nm, 'int', rng.randint(1000, 9999))] if kw == 'else' else []
         idx_blocks = [i for i, it in enumerate(items) if it['k'] == 'blk']
         first_any = min([i for i, it in enumerate(items) if _has_block(it)] or [len(items)])
-        mode = rng.choice(['start', 'after-end', 'later'])
+        mode = rng.choice(['start', 'after-end', 'later', 'inside-clause', 'inside-clause'])
+        if mode == 'inside-clause' and idx_blocks:
+            # inside the body of a clause (selected or not, any depth) at a point where no block of that body is open:
+            # at its start or after plain node lines
+            cbody = rng.choice(_clause_bodies(items))
+            pos = 0
+            while pos < len(cbody) and cbody[pos]['k'] in ('def', 'mod') and rng.random() < 0.6:
+                pos += 1
+            cbody.insert(pos, BAD(kw, [D(nm, 'int', rng.randint(1000, 9999))] if kw == 'else' else [], 2))
+            B2 = analyse(items)
+            if B2.model_invalid or B2.mustfail is None:
+                continue
+            return dict(t='prog', fam='mustfail', items=items)
         if mode == 'start' or not idx_blocks:
             pos = rng.randint(0, first_any)
         elif mode == 'after-end':
@@ -920,6 +932,21 @@ def gen_mustfail(rng):
             continue
         return dict(t='prog', fam='mustfail', items=new)
     return None
+
+
+def _clause_bodies(items, out=None):
+    out = [] if out is None else out
+    for it in items:
+        if it['k'] == 'blk':
+            for c in it['cl']:
+                out.append(c['items'])
+                _clause_bodies(c['items'], out)
+            if it.get('el') is not None:
+                out.append(it['el'])
+                _clause_bodies(it['el'], out)
+        elif it['k'] == 'grp':
+            _clause_bodies(it['items'], out)
+    return out
 
 
 def _has_block(it):
